@@ -164,3 +164,98 @@ def _(tier, rng):
         for c in itertools.combinations(pool, r):
             yield dict(keys=keys, refs=[(v, 1 + (i % 2)) for i, v in enumerate(c)])
     yield dict(keys=keys, refs=[([9, 9], 1)], unbuilt=True)
+
+
+# ------------------------------------------------------------------ the ID / IDREF block of XsdAtomicBuiltin.raw_decode (statement contract)
+t = Target('simple_types.raw_decode.id_idref_block', ['C08'], 'xmlschema/validators/simple_types.py', 'XsdAtomicBuiltin.raw_decode', anchor='if self.name == nm.XSD_QNAME:',
+           note="statement contract for non-QName types: an IDREF registers its value with count 0 when unseen and never raises an error; an ID (level > 0) is a "
+                "duplicate exactly when the value was registered as an ID before (count >= 1) - an earlier IDREF to the same value does not make it one; "
+                "without check_identities or at level 0 nothing is recorded. XSD 1.1 allows the same ID value twice on one element (id_list)",
+           assumes=['id_map is a Counter: absent keys count 0'])
+
+
+@t.symbolic
+def _(run):
+    ex = run.exec(); st = new_state()
+    dom = z3.Const('id_dom', z3.ArraySort(S, B)); val = z3.Const('id_val', z3.ArraySort(S, I)); obj = z3.String('obj')
+    c_map = st.alloc(kind='dict', dom=dom, val=val, ksort=S, default=0, wrap=lambda t_: VInt(t_))
+    idl0 = z3.Const('id_list0', z3.SeqSort(S)); c_list = st.alloc(kind='list', seq=idl0, esort=S)
+    name = z3.String('type_name'); ver = z3.String('ver'); level = z3.Int('level'); chk = z3.Bool('check_identities'); lnone = z3.Bool('id_list_none')
+    st.objf['context'] = {'check_identities': VBool(chk), 'id_map': VDict(c_map), 'level': VInt(level), 'id_list': VOpt(lnone, VList(c_list)), 'converter': OPAQUE, 'namespaces': OPAQUE}
+    st.objf['self'] = {'name': VStr(name), 'xsd_version': VStr(ver)}
+    st.env.update(self=VObj('self'), context=VObj('context'), obj=VStr(obj), validation=VStr(z3.String('validation')), result=OPAQUE)
+    ex.names[('nm', 'XSD_QNAME')] = VStr(SV('{xs}QName')); ex.names[('nm', 'XSD_IDREF')] = VStr(SV('{xs}IDREF'))
+    st.ghost['errs'] = 0
+
+    def verr(e, s, r, a, k): s.ghost['errs'] += 1; return NONE
+    ex.callees['validation_error'] = verr
+    ex.callees['_'] = lambda *a: OPAQUE; ex.callees['format'] = lambda *a: OPAQUE
+    # method calls on the Optional id_list: unwrap (guarded by the code's own `is None` test)
+    orig_call = ex.e_Call
+
+    def e_Call(e, s):
+        if isinstance(e.func, ast.Attribute) and ast.unparse(e.func.value) == 'context.id_list' and e.func.attr == 'append':
+            h = s.heap[c_list]; h['seq'] = z3.Concat(h['seq'], z3.Unit(lift(ex.ev(e.args[0], s)).t)); return NONE
+        if isinstance(e.func, ast.Name) and e.func.id == 'len' and ast.unparse(e.args[0]) == 'context.id_list': return VInt(z3.Length(s.heap[c_list]['seq']))
+        return orig_call(e, s)
+    ex.e_Call = e_Call
+    orig_cmp = ex.cmp
+
+    def cmp(op, l_, r_, s):
+        if isinstance(op, (ast.In, ast.NotIn)) and isinstance(r_, VOpt) and isinstance(r_.val, VList):
+            res = z3.Contains(s.heap[c_list]['seq'], z3.Unit(lift(l_).t)); return res if isinstance(op, ast.In) else z3.Not(res)
+        return orig_cmp(op, l_, r_, s)
+    ex.cmp = cmp
+    k = z3.Const('k', S)
+    pre = z3.And(name != SV('{xs}QName'), z3.ForAll([k], z3.And(val[k] >= 0, z3.Implies(z3.Not(dom[k]), val[k] == 0))), level >= 0,
+                 z3.Or(ver == SV('1.0'), ver == SV('1.1')))
+    run.inputs.update(is_idref=(name == SV('{xs}IDREF')), count_before=val[obj], registered_before=dom[obj], level=level, check_identities=chk, id_list_none=lnone,
+                      in_id_list=z3.Contains(idl0, z3.Unit(obj)), id_list_len=z3.Length(idl0), ver=ver)
+    outs = ex.run(st, pre)
+    is_ref = name == SV('{xs}IDREF'); seen = val[obj] >= 1
+    active = z3.And(chk, z3.Or(is_ref, level > 0))
+
+    def maps(kind, v, s):
+        if kind != 'fall': return z3.BoolVal(False)
+        d2, v2 = s.heap[c_map]['dom'], s.heap[c_map]['val']
+        others = z3.ForAll([k], z3.Implies(k != obj, z3.And(d2[k] == dom[k], v2[k] == val[k])))
+        mine = z3.If(z3.Not(active), z3.And(d2[obj] == dom[obj], v2[obj] == val[obj]),
+                     z3.If(is_ref, z3.And(d2[obj], v2[obj] == val[obj]),
+                           z3.If(seen, v2[obj] == val[obj], z3.And(d2[obj], v2[obj] == 1))))
+        return z3.And(others, mine)
+
+    def errors(kind, v, s):
+        if kind != 'fall': return z3.BoolVal(False)
+        n = s.ghost['errs']
+        want = z3.If(z3.Or(z3.Not(active), is_ref), 0,
+                     z3.If(lnone, z3.If(seen, 1, 0),
+                           z3.If(seen, z3.If(z3.Or(z3.Not(z3.Contains(idl0, z3.Unit(obj))), ver == SV('1.0')), 1, 0),
+                                 z3.If(z3.And(z3.Length(idl0) + 1 > 1, ver == SV('1.0')), 1, 0))))
+        return z3.IntVal(n) == want
+    run.post(ex, outs, pre, {'id-map-updated-by-the-id-idref-rules': maps, 'duplicate-error-iff-registered-as-id-before': errors})
+
+
+@t.concrete
+def _(inp):
+    import xmlschema
+    XS = 'xmlns:xs="http://www.w3.org/2001/XMLSchema"'
+    if not inp['check_identities'] or inp['level'] == 0 or not inp['id_list_none'] and inp['ver'] == '1.0' and False: return dict(ok=True, observed='not replayed', required=None)
+    cls = xmlschema.XMLSchema11 if inp['ver'] == '1.1' else xmlschema.XMLSchema10
+    s = cls(f'<xs:schema {XS}><xs:element name="r"><xs:complexType><xs:sequence><xs:element name="n" maxOccurs="unbounded"><xs:complexType>'
+            f'<xs:attribute name="id" type="xs:ID"/><xs:attribute name="ref" type="xs:IDREF"/></xs:complexType></xs:element></xs:sequence></xs:complexType></xs:element></xs:schema>')
+    before = ('<n ref="v"/>' if inp['registered_before'] and inp['count_before'] == 0 else '') + ('<n id="v"/>' if inp['count_before'] >= 1 else '')
+    this = '<n ref="v"/>' if inp['is_idref'] else '<n id="v"/>'
+    closing = '' if (inp['count_before'] >= 1 or not inp['is_idref']) else '<n id="v"/>'      # keep every IDREF resolvable so that only duplicate errors remain
+    doc = f'<r>{before}{this}{closing}</r>'
+    errs = [e.reason for e in s.iter_errors(doc)]
+    dup = [e for e in errs if 'duplicated' in e]
+    want = 0 if inp['is_idref'] else (1 if inp['count_before'] >= 1 else 0)
+    return dict(ok=len(dup) == want, observed=errs, required=f'{want} duplicate error(s)', doc=doc)
+
+
+@t.scope
+def _(tier, rng):
+    for ver in ('1.0', '1.1'):
+        for is_ref in (True, False):
+            for cb, rb in ((0, False), (0, True), (1, True)):
+                yield dict(is_idref=is_ref, count_before=cb, registered_before=rb, level=1, check_identities=True, id_list_none=False, in_id_list=False, id_list_len=0, ver=ver)
